@@ -176,6 +176,14 @@ func runThorough(c *Check, fn checkFn) {
 		c.Extra["goarch_386"] = map[string]int{"obligations": len(sub.Obs), "failed": nbad, "packages": len(l386.Pkgs)}
 	}()
 
+	// ---- 1b. trusted-base assumptions confirmed from the dependency source
+	switch c.ID {
+	case "C01", "C02", "C03", "C04", "C05", "C16", "C19":
+		c.sdkAssumptionA1()
+	case "C06", "C17":
+		c.sdkAssumptionA2()
+	}
+
 	// ---- 2. self-validation on committed seeds
 	seedRoot := filepath.Join(home(), "seeded")
 	ents, _ := os.ReadDir(seedRoot)
